@@ -293,7 +293,7 @@ class EndToEnd(Case):
     """real evaluation code underneath: density-level function == definition over reference basis-function jets"""
 
     prop = "C06"
-    canary_scale = "Ac0_0"
+    canary_scale = "Px"  # a point coordinate: symbolic in every variant (a single normalised primitive does not depend on its coefficient)
     rtol = 1e-7
     query_timeout = 120000
 
@@ -413,8 +413,6 @@ def cases(tier, seed=0):
         if tier == "thorough":
             out.append(Threshold(fn=fn, nb=3, npts=1, thr="sym"))
             out.append(Threshold(fn=fn, nb=3, npts=1, psd=1, thr="sym"))
-            if fn == "density":
-                out.append(Threshold(fn=fn, nb=2, npts=3, thr="sym"))
     out.append(Threshold(fn="general_ked", nb=2, npts=1, alpha="sym"))
     out.append(Threshold(fn="general_ked", nb=3, npts=1, alpha="sym", transform=True))
     out.append(Threshold(fn="general_ked", nb=2, npts=1, alpha=0))
@@ -427,7 +425,6 @@ def cases(tier, seed=0):
     # mixed coordinate types with a two-column shell (the assembly path of the evaluation layer matters here)
     out.append(EndToEnd(fn="gradient", ls=[1, 0], types="sc", Ks=[1, 1], Ms=[2, 1], exps=[["7/10"], ["3/2"]]))
     if tier == "thorough":
-        out.append(EndToEnd(fn="hessian", **ee))
         out.append(EndToEnd(fn="hessian", deriv_type="direct", ls=[1, 0], types="cc", Ks=[1, 1], Ms=[1, 1], exps=[["7/10"], ["3/2"]]))
         out.append(EndToEnd(fn="deriv_density", orders=[3, 1, 0], ls=[1, 0], types="sc", Ks=[1, 1], Ms=[1, 2], exps=[["7/10"], ["3/2"]]))
         out.append(EndToEnd(fn="gradient", ls=[2, 0], types="sc", Ks=[1, 1], Ms=[1, 1], exps=[["3/10"], ["5"]]))
@@ -439,7 +436,7 @@ def main(tier="quick", seed=0, only=None):
     bounds = {
         "orders": "evaluate_deriv_density: every order triple 0..4 (125, enumerated)",
         "matrices": "symbolic symmetric density matrices 2x2 / 3x3 (indefinite: all real symmetric matrices; PSD: P = C^T C with symbolic C of rank 1, rank 2 for the density in thorough)",
-        "points": "1-2 points (3 in one thorough case); the jets at each point are independent symbols",
+        "points": "1-2 points; the jets at each point are independent symbols",
         "thresholds": "symbolic threshold >= 0 (every value, hence all values around the clipping boundary) and the default 1e-8",
         "alpha": "symbolic alpha (all reals, alpha = 0 split off as its own path) and the literals 0, 1",
         "back_ends": "both; forwarding of deriv_type and transform to the evaluation layer is asserted on every call",
